@@ -146,6 +146,9 @@ def run(tier):
             job.update({"period": 2, "clear": False})
         if kind == "PI":
             job.update({"max_eval_iter": 3, "reset": False})
+        # the problem's tables are built in SINGLE precision here: keep to vectors single precision can hold (the
+        # renderer's tiny / huge float action units would collapse - a property of the rendering, not of the solver)
+        m["render"].update({"adiv": 1, "aoffset": 0, "sdiv": 1})
         late.append(job)
     lj, lt = solverlib.run_jobs([j for j in late if j["kind"] != "PI"], late_x64=True)
     solverlib.judge(rep, lj, lt, label="C08", known_key=known_key)
